@@ -51,7 +51,7 @@ probes! {
     spurious_poll, delayed_wake_fired, sched_switch, pipe_full_block, pipe_empty_block,
     parse_err_returned, closed_returned, msgs_delivered, msgs_sent_ok, aim_unconfirmed, aim_confirmed,
     prefix_accepted_padding_exception, hostile_guard_handed_out,
-    abandoned_guard, failed_emplace_then_send, send_buffer_prefilled, recv_after_closed,
+    abandoned_guard, failed_emplace_then_send, send_buffer_prefilled, recv_after_closed, unvalidated_value_sent,
 }
 
 pub type Stats = [u64; P::_COUNT as usize];
